@@ -22,6 +22,16 @@ import icontract._checkers
 # pylint: skip-file
 
 
+def _class_has_attribute(cls: type, name: str) -> bool:
+    """
+    Check that the attribute is defined in the class or in one of its ancestors.
+
+    ``hasattr(cls, name)`` also finds the attributes of the meta-class (*e.g.*, ``register`` and ``mro``, or
+    ``__call__`` since the classes are callable). These are not members which the instances inherit.
+    """
+    return any(name in vars(klass) for klass in cls.__mro__)
+
+
 def _collapse_invariants(
     bases: List[type], namespace: MutableMapping[str, Any], invariants_dunder: str
 ) -> None:
@@ -163,7 +173,7 @@ def _decorate_namespace_function(
     if contract_checker is not None and any(
         icontract._checkers.find_checker(func=getattr(base, key)) is contract_checker
         for base in bases
-        if hasattr(base, key)
+        if _class_has_attribute(base, key)
     ):
         return
 
@@ -180,7 +190,7 @@ def _decorate_namespace_function(
         bases_have_func = False
         base_accepts_all = False
         for base in bases:
-            if hasattr(base, key):
+            if _class_has_attribute(base, key):
                 base_func = getattr(base, key)
 
                 # An attribute of the base which is not callable (*e.g.*, a placeholder ``handler = None``)
@@ -303,7 +313,7 @@ def _decorate_namespace_property(
         bases_have_func = False
         base_accepts_all = False
         for base in bases:
-            if hasattr(base, key):
+            if _class_has_attribute(base, key):
                 base_property = getattr(base, key)
 
                 # The base might have a plain attribute (*e.g.*, a class-level default ``name = None``) or a method
